@@ -232,6 +232,8 @@ def finish(prop, mod, tier, seed, results, t0, min_concluded=0.9):
         notes=[dict(label=r['label'], notes=r['notes'][:4]) for r in results if r['notes'] and r['status'] == HOLDS][:20],
         deferred_by_this_tier=[dict(label=r['label'], reason=(r['notes'][-1] if r['notes'] else '')) for r in skipped][:60],
         n_deferred=len(skipped),
+        second_solver_queries=sum(len(r.get('second_solver') or []) for r in results),
+        second_solver_samples=[x for r in results for x in (r.get('second_solver') or [])][:6],
         known_findings_hit=sorted(known_hits.keys()),
         new_violations=len(replay_paths),
         exhaustive=False,
